@@ -69,6 +69,27 @@ def witnesses(ctx):
     finally:
         sb.close()
 
+def witness_k6d(ctx):
+    """K6d: S0 writes AGENTS.md; S1 is deployed with write_agents_global off (the root is no root: the file stays, unmanaged);
+    S2 switches the root on again and changes the file; rollback to S1 deletes it although it was there right after S1"""
+    sb = Sandbox('c06w'); sb.git_init_project()
+    try:
+        cw = _world(sb, claude=False)
+        cw.modules.append({'id': 'instructions:base', 'type': 'instructions', 'dir': 'modules/instructions/base', 'files': {'AGENTS.md': b'# rules\n'}, 'targets': [], 'enabled': True})
+        cw.write(); _deploy(sb)
+        cw.opts['write_agents_global'] = False; cw.modules[0]['files']['p0.md'] = b'zero v2\n'; cw.write(); S = _deploy(sb)
+        right_after = ds.read_tree(sb.home)
+        cw.opts['write_agents_global'] = True; cw.modules[-1]['files']['AGENTS.md'] = b'# rules v2\n'; cw.write(); _deploy(sb)
+        rc, doc, out, err = sb.cli_json(['rollback', '--to', S, '--yes'])
+        after = ds.read_tree(sb.home)
+        p = '/codex_home/AGENTS.md'
+        ctx.count('witness', key='K6d', tags=['witness:K6d'])
+        if doc and doc.get('ok') and right_after.get(p) is not None and after.get(p) != right_after.get(p):
+            if ctx.is_known('K6d'): ctx.known_finding('K6d', ds.KNOWN_TEXT['K6d'])
+            else: ctx.violation('rollback to S changed a file that lay on disk unmanaged right after S', {'stream': 'witness', 'cls': 'K6d'})
+    finally:
+        sb.close()
+
 def run(ctx):
     quick = ctx.tier == 'quick'
     ctx.rule = ('rollback_hist: histories over {deploy(config edit, user edit, entry point, --target, --adopt), bootstrap --scope user, rollback --to (any earlier '
@@ -80,6 +101,7 @@ def run(ctx):
                        'legacy snapshots without a state tree (backup-walk branch) are not generated']
     ctx.proof_phase(extra_targets=['Corr/Check_Deploy.vo'])
     witnesses(ctx)
+    witness_k6d(ctx)
     # rollback-heavy histories of plain deploys (no filter, no adopt): several deploys, then rollbacks back, forward (redo) and sideways
     ds.run_hist_stream(ctx, 10 if quick else 150, 0, props={'C06'}, weights={'deploy': 1}, stream='redo_hist', simple=True,
                        kinds_seq=lambda rng: ['deploy'] * rng.randrange(2, 5) + ['rollback'] * rng.randrange(3, 6),
